@@ -214,6 +214,19 @@ def asyncio_facts():
             return before == 0 and during == 1
     fact('Task.cancelling() counts pending cancellation requests', run(cancelling_counter()))
 
+    async def inner_cancel_is_no_request():
+        loop = aio.get_running_loop()
+        f = loop.create_future()
+        t = aio.ensure_future(aio.wait_for(f, 60))
+        await aio.sleep(0)
+        f.cancel()
+        try:
+            await t
+        except aio.CancelledError:
+            pass
+        return t.cancelled() and t.cancelling() == 0
+    fact('a task cancelled through the future it awaits has cancelling() == 0', run(inner_cancel_is_no_request()))
+
     async def wait_for_get():
         q = aio.Queue()
         try:
